@@ -154,6 +154,11 @@ def step (s : DState) (toks : List String) : DState × String :=
   | ["connect", id, _, _] => if s.world then ({ s with conns := id :: s.conns }, "ok") else bad s
   | ["toggle", _] => if s.world then (s, "ok") else bad s
   | ["epupdate", _, _] => if s.world then (s, "ok") else bad s
+  | ["epnew", _, _] => if s.world then (s, "ok") else bad s
+  | ["epdelete", _] => if s.world then (s, "ok") else bad s
+  | ["epdelshard", _] => if s.world then (s, "ok") else bad s
+  | ["meshchange", _] => if s.world then (s, "ok") else bad s
+  | ["forcepush", _] => if s.world then (s, "ok") else bad s
   | ["dumptypes", id] => if s.conns.contains id then (s, "ok") else bad s
   | ["request", id, ty] =>
     if s.conns.contains id && ["cds", "eds", "rds", "sds"].contains ty then (s, "ok") else bad s
